@@ -148,6 +148,19 @@ def run(res, proofs_ok, proofs_why):
         why = judge_ordv(ln, i)
         if why:
             bad.append({"case": ln, "impl": i, "model": m, "why": why})
+    # the as-of instant stays attached to the report it was read for, all the way into the segment: a record carries
+    # the bound of a synchronised report together with the as-of of that same report - a later report that is not
+    # a measurement (chronyd unsynchronised, a stale reference time) must not move the as-of under an older bound,
+    # or the drift of the time in between is lost to the client (histories through the real process_messages)
+    from props import _updater
+    hl = [_updater.line_of(rng.choice([1000, 50000]), _updater.gen_history(rng, 12, _updater.MIXES[k % len(_updater.MIXES)])) for k in range(150 if res.tier == "quick" else 5000)]
+    himpl = c.run_lines(c.build_harness("debug")[0], hl)
+    for ln, o in zip(hl, himpl):
+        res.evaluations += 1
+        res.count("gen:as-of of the published record through report histories")
+        why = [w for w in _updater.judge(ln, o, "C08") if "as-of" in w and "void-after" not in w]
+        if why:
+            bad.append({"case": ln, "impl": o, "why": why + ["(the as-of of a published record is the reading taken before the request whose answer gave the record its bound)"]})
     res.extra["measured_poller_order"] = sorted(orders)
     res.extra["measured_client_read_order"] = sorted(client_orders)
     # generated obligation
